@@ -411,8 +411,8 @@ def cache_oracle(case, res, death_ok=False):
         want = orc.step(op, o)
         if want is None or same(o, want):
             continue
-        if death_ok and o[0] == 'exc' and o[1] in DEATH:
-            del orc.coq[n_coq:]
+        if death_ok and ((o[0] == 'exc' and o[1] in DEATH) or (op[0] == 'bool' and o == ['bool', False])):
+            del orc.coq[n_coq:]             # (bool(cache) is False as soon as the worker is gone)
             return None, None, orc.coq      # the failure surfaced; what follows is checked by the caller
         key = None
         k = op[2] if len(op) > 2 and isinstance(op[2], int) else None
@@ -500,7 +500,7 @@ def judge_cache_cases(ctx, cases, results, stream, coq_cases, coq_meta):
                 if op[0] == 'update':
                     for k, v in op[2]:
                         written.setdefault((op[1], k), set()).add(v)
-                died = o[0] == 'exc' and o[1] in DEATH
+                died = (o[0] == 'exc' and o[1] in DEATH) or (op[0] == 'bool' and o == ['bool', False])
                 if not seen and not died:
                     want = orc.step(op, o)
                     if want is not None and not same(o, want):
